@@ -16,6 +16,9 @@ CLAIMED = {
  "C09": ("map-iteration-order classification (reviewed table), sort-comparator lint, forbidden-call scan, SSA path table of File.Render, reachability-scoped who-may-produce rule, template parse-tree order, go/cfg dominance and error-gate polarity",
          "Static necessary conditions only: no order-sensitive map iteration or mis-indexed comparator in generator packages, no ambient nondeterminism, seeded example randomizer, existing example files never opened, append-only opening, gen directories wiped before regeneration, sorted output list, write-pipeline errors tested with the right polarity. Cannot prove byte equality across processes.",
          "DESIGN.md §3 C09"),
+ "C10": ("AST data-flow rule on protoBufMessageDef, validator loop/flag lints, SSA path tables of the gRPC handlers, template parse-tree tables (stream kinds, strconv conversion branches), memo-key agreement lint",
+         "Static necessary conditions only: field numbers printed from the attribute being printed; gRPC validators visit every attribute; decode ≺ endpoint ≺ encode ≺ headers with gates in the runtime handlers; streaming keywords driven by the right stream-kind constants; strconv family/bit size/cast per primitive in the metadata conversion templates; seen-sets keyed consistently. Does not decide proto3 well-formedness nor value round trips.",
+         "DESIGN.md §3 C10"),
  "C11": ("go/cfg ordering, gate and dominance rules on eval.RunDSL; loop-exit and dispatch tables; SSA path table of Record",
          "Static necessary conditions only: global phase barrier and error gates between phases on every path of RunDSL, whole-list loops, re-reading of roots registered during execution, no early exit from the set runners, interface/method dispatch pairing, dependency callbacks that depend on their argument. Does not decide that Roots() is a topological sort with cycle detection for every graph.",
          "DESIGN.md §3 C11"),
